@@ -72,9 +72,9 @@ def verify(i):
         demo = os.path.join(wt, mt["demo_path"])
         shutil.copy(os.path.join(sdir(i), "demo_test.go.txt"), demo)
         pkg = "./" + os.path.dirname(mt["demo_path"]) + "/"
-        rc1, o1 = sh("go test -vet=off -count=1 -run 'Demo' %s" % pkg, cwd=wt)
+        rc1, o1 = sh("go test -vet=off -count=1 -run 'Demo|TestZZ' %s" % pkg, cwd=wt)
         sh("git apply -R %s" % os.path.join(sdir(i), "patch.diff"), cwd=wt)
-        rc2, o2 = sh("go test -vet=off -count=1 -run 'Demo' %s" % pkg, cwd=wt)
+        rc2, o2 = sh("go test -vet=off -count=1 -run 'Demo|TestZZ' %s" % pkg, cwd=wt)
         res = dict(ok=suite_ok and rc1 != 0 and rc2 == 0, suite_passes_with_change=suite_ok, demo_fails_with_change=rc1 != 0,
                    demo_passes_without_change=rc2 == 0)
         if not res["ok"]:
